@@ -169,9 +169,7 @@ def busy_time_accounting(ctx, P, views):
         else:
             want(cls, "detatch_server", b, b.value, {srv + ".busy_time": 1, ind + ".exit_date": 1, ind + ".service_start_date": -1},
                  "busy time must grow by exit_date - service_start_date of the departing customer (a blocked customer keeps its server until it leaves)")
-        t = asg.get(srv + ".total_time")
-        if t is not None:
-            want(cls, "detatch_server", t, t.value, {"self.now": 1, srv + ".start_date": -1}, "total time of a server is now - start_date")
+        # (server.total_time written at detach is overwritten by kill_server / wrap_up_servers before anything reads it: not an obligation)
         cls, fn = view.method("kill_server")
         srv = fn.args.args[1].arg
         for x in ast.walk(fn):
